@@ -82,6 +82,16 @@ def _with_margin(e, pol):
     if k == z3.Z3_OP_OR:
         parts = [_with_margin(c, pol) for c in ch]
         return z3.Or(*parts) if pol else z3.And(*parts)
+    if k in (z3.Z3_OP_EQ, z3.Z3_OP_IFF) and len(ch) == 2 and z3.is_bool(ch[0]):
+        a, b = ch
+        same = z3.Or(z3.And(_with_margin(a, True), _with_margin(b, True)), z3.And(_with_margin(a, False), _with_margin(b, False)))
+        diff = z3.Or(z3.And(_with_margin(a, True), _with_margin(b, False)), z3.And(_with_margin(a, False), _with_margin(b, True)))
+        return same if pol else diff
+    if k == z3.Z3_OP_XOR and len(ch) == 2:
+        return _with_margin(ch[0] == ch[1], not pol)
+    if k == z3.Z3_OP_IMPLIES:
+        a, b = ch
+        return z3.Or(_with_margin(a, False), _with_margin(b, True)) if pol else z3.And(_with_margin(a, True), _with_margin(b, False))
     if k in (z3.Z3_OP_LE, z3.Z3_OP_LT, z3.Z3_OP_GE, z3.Z3_OP_GT) and z3.is_real(ch[0]):
         a, b = ch
         if k in (z3.Z3_OP_GE, z3.Z3_OP_GT):
@@ -104,17 +114,38 @@ def interior_model(c):
 
 def generic_model(c, *assumptions):
     """a model of the path (plus assumptions) in which the real-valued inputs avoid 'round' values where possible:
-    witnesses replayed on the real code then also exercise truncation / rounding / tie-sensitive code."""
+    witnesses replayed on the real code then also exercise truncation / rounding / tie-sensitive code.
+    The avoidance is soft: inputs that must take a round value (a reward that has to be 0, say) keep it."""
     extra = []
     for name, (zv, kind) in c.inputs.items():
         if zv is not None and kind == 'real':
-            extra += [zv != z3.RealVal(str(v)) for v in ROUND_VALUES]
+            extra.append(z3.And(*[zv != z3.RealVal(str(v)) for v in ROUND_VALUES]))
+    m = None
     try:
         c.solver.push()
-        for e in list(assumptions) + extra:
+        for e in assumptions:
+            c.solver.add(e)
+        c.solver.push()
+        for e in extra:
             c.solver.add(e)
         r = c._check()
-        m = c.solver.model() if r == z3.sat else None
+        if r == z3.sat:
+            m = c.solver.model()
+        c.solver.pop()
+        if m is None:
+            if c._check() != z3.sat:
+                return None
+            m = c.solver.model()
+            if len(extra) <= 40:
+                for e in extra:         # greedy: keep each avoidance that is still satisfiable
+                    c.solver.push()
+                    c.solver.add(e)
+                    if c._check() == z3.sat:
+                        m = c.solver.model()
+                        c.solver.pop()
+                        c.solver.add(e)
+                    else:
+                        c.solver.pop()
     finally:
         c.solver.pop()
     return m
@@ -268,7 +299,11 @@ class Sx:
                         m = c.solver.model()
                         neg = robust.z
                 if self.sym:
-                    gm = generic_model(c, neg)
+                    # prefer a counterexample that is interior to the path (every branch decision holds with a margin), then a
+                    # generic one: boundary models often do not survive replay in floating point
+                    strong = _with_margin(cond.z, False)      # the obligation itself violated with a margin on its numeric atoms
+                    marg = [_with_margin(e, ch) for e, ch in c.decisions]
+                    gm = generic_model(c, strong, *marg) or generic_model(c, neg, *marg) or generic_model(c, strong) or generic_model(c, neg)
                     if gm is not None:
                         m = gm
                 c.violations.append((label, self._extract_model(m) if self.sym else dict(c.given)))
